@@ -374,6 +374,82 @@ def case_spreading_order(threads):
     return CaseResult(fails=fails, states=states, transitions=states, traces=states, outcome=f"spread:{threads}")
 
 
+_TRANSFER_SCRIPT = r"""
+import sys, json, os, pkgutil, importlib
+sys.path.insert(0, %(verif)r)
+from harness import shim
+shim.install()
+import numpy as np
+from harness import bodies
+out = {"results": {}, "parallel": []}
+# (a) the body-side reductions of every forcing grid with MANY markers (a threaded reduction changes its rounding
+#     with the number of numba threads)
+def gen(shape, k):
+    i = np.arange(int(np.prod(shape)), dtype=np.float64)
+    return (np.sin(0.37 * i + k) * (1.0 + 0.001 * i) + 0.1 * np.cos(5.1 * i)).reshape(shape)
+for kind, n in (("cylinder2d", 257), ("cylinder3d", 12), ("sphere", 24), ("plane", 16)):
+    rot = (bodies.rotations_2d() if kind == "cylinder2d" else bodies.rotations_3d())[-1]
+    body, grid = bodies.make_rigid(kind, rot, np.array([1.0, 2.0, 0.0 if kind == "cylinder2d" else 3.0]), n_points=n)
+    d = grid.grid_dim
+    F, T = np.zeros((3, 1)), np.zeros((3, 1))
+    grid.transfer_forcing_from_grid_to_body(body_flow_forces=F, body_flow_torques=T, lag_grid_forcing_field=gen((d, grid.num_lag_nodes), 1))
+    out["results"][kind] = [F.tobytes().hex(), T.tobytes().hex(), int(grid.num_lag_nodes)]
+for kind in bodies.ROD_GRIDS:
+    planar = bodies.rod_grid_is_planar(kind)
+    rod = bodies.make_rod(5, True, True, rot=None, planar=planar, seed=1)
+    grid = bodies.make_rod_grid(kind, rod, density=24)
+    d = grid.grid_dim
+    F, T = np.zeros((3, 6)), np.zeros((3, 5))
+    grid.transfer_forcing_from_grid_to_body(body_flow_forces=F, body_flow_torques=T, lag_grid_forcing_field=gen((d, grid.num_lag_nodes), 2))
+    out["results"]["rod:" + kind] = [F.tobytes().hex(), T.tobytes().hex(), int(grid.num_lag_nodes)]
+# (b) no numba dispatcher of the package may be compiled with parallel=True (auto-parallel reductions are scheduled
+#     by thread count)
+import sopht
+for m in pkgutil.walk_packages(sopht.__path__, "sopht."):
+    try:
+        mod = importlib.import_module(m.name)
+    except Exception:
+        continue
+    objs = list(vars(mod).items())
+    for _n, o in list(objs):
+        if isinstance(o, type):
+            objs += [(_n + "." + k, v) for k, v in vars(o).items()]
+    for name, o in objs:
+        o = getattr(o, "__func__", o)
+        to = getattr(o, "targetoptions", None)
+        if isinstance(to, dict) and to.get("parallel") and getattr(o, "__module__", "").startswith("sopht"):
+            out["parallel"].append(m.name + ":" + name)
+print("RESULT" + json.dumps(out))
+"""
+
+
+def case_numba_threads(threads):
+    """Coupling routines under different numbers of numba threads (fresh process per setting): the body-side force /
+    torque reductions of every forcing grid must be bit-identical, and no dispatcher may be an auto-parallel one."""
+    runs = {}
+    for t in threads:
+        env = dict(os.environ)
+        env["NUMBA_NUM_THREADS"] = str(t)
+        r = subprocess.run([sys.executable, "-c", _TRANSFER_SCRIPT % {"verif": str(shim.VERIF)}], capture_output=True, text=True, env=env)
+        line = [l for l in r.stdout.splitlines() if l.startswith("RESULT")]
+        if not line:
+            from harness.interp import HarnessError
+
+            raise HarnessError("numba-threads subprocess failed: " + r.stderr[-800:])
+        runs[t] = json.loads(line[0][6:])
+    fails = []
+    base = runs[threads[0]]
+    states = 0
+    for t in threads[1:]:
+        for kind, rec in runs[t]["results"].items():
+            states += 1
+            if rec != base["results"][kind]:
+                fails.append(Fail("coupling:thread-count", "force / torque transferred to the body differs bit-wise between numbers of numba threads", grid=kind, markers=rec[2], threads=[threads[0], t]))
+    for name in sorted(set(sum((runs[t]["parallel"] for t in threads), []))):
+        fails.append(Fail("coupling:parallel-dispatcher", "a numba function of the package is compiled with parallel=True (its reductions are scheduled by thread count)", function=name))
+    return CaseResult(fails=fails, states=states, transitions=len(threads) * len(base["results"]), traces=len(threads), outcome=f"numba-threads:{threads}:{len(base['results'])}")
+
+
 def case_jit_threads(name, opts, dtype):
     """Supplementary (not deciding): the generated code under different OpenMP thread counts."""
     real_t = np.dtype(dtype).type
@@ -401,7 +477,7 @@ def case_jit_threads(name, opts, dtype):
     return CaseResult(fails=fails, states=n, transitions=n, traces=n, outcome=f"jit:{name}:{n}")
 
 
-CASES = {"kernels": case_kernels, "control": case_control, "callsites": case_callsites, "interaction_callsites": case_interaction_callsites,
+CASES = {"numba_threads": case_numba_threads, "kernels": case_kernels, "control": case_control, "callsites": case_callsites, "interaction_callsites": case_interaction_callsites,
          "spreading_order": case_spreading_order, "jit_threads": case_jit_threads}
 
 
@@ -434,6 +510,7 @@ def run(r) -> None:
     r.run_cases("call-site-monitor", "callsites", cs, chunksize=4)
     r.run_cases("call-site-monitor-interaction", "interaction_callsites", [dict(dim=d, reset=x) for d in (2, 3) for x in (False, True)])
     r.run_cases("spreading-order", "spreading_order", [dict(threads=t) for t in (1, 4)])
+    r.run_cases("coupling-numba-threads", "numba_threads", [dict(threads=[1, 2, 3, 4, 7])])
     if not quick:
         jt = [dict(name=n, opts=o, dtype="float64") for n, o in registry.entries() if n.endswith("_3d")][:40]
         r.run_cases("jit-thread-counts(supplementary)", "jit_threads", jt)
